@@ -29,6 +29,23 @@ C1 = {'list': (S.CList, lambda c: typing.List[c]), 'tuplev': (S.CTuple, lambda c
       'mseq': (S.CList, lambda c: cabc.MutableSequence[c])}
 C2 = {'dict': (S.CDict, lambda k, v: typing.Dict[k, v]), 'map': (S.CMap, lambda k, v: cabc.Mapping[k, v]),
       'ddict': (S.CDefaultDict, lambda k, v: typing.DefaultDict[k, v]), 'odict': (S.COrderedDict, lambda k, v: typing.OrderedDict[k, v])}
+def _is_int(x):
+    return isinstance(x, int)
+
+
+def _is_pos(x):
+    return isinstance(x, int) and x > 0
+
+
+def _leaf_validators():
+    from beartype.vale import Is, IsEqual
+    return {
+        # one compound validator (embeds the object twice) over an ignorable base; two validators, the first compound
+        'ann2': (typing.Annotated[object, Is[_is_int] & Is[_is_pos]], 7, 's'),
+        'ann3': (typing.Annotated[object, IsEqual[7] | Is[_is_pos], Is[_is_int]], 7, 's'),
+    }
+
+
 LEAF = {'int': (int, 7, 's'), 'str': (str, 's', 7), 'optint': (typing.Optional[int], None, 's'), 'obj': (object, 7, 7), 'any': (typing.Any, 's', 's')}      # (hint, conforming, violating); obj / any cannot be violated
 
 
@@ -174,6 +191,8 @@ def shapes(tier):
     # conforming items that are None (falsy / identity-comparable singletons must not trigger a second read)
     out += [('iterable', 'optint'), ('reversible', 'optint'), ('container', 'optint'), ('list', 'optint'), ('seq', 'optint'), ('list', ('iterable', 'optint')),
             ('dict', 'str', 'optint'), ('tuplev', 'optint'), ('deque', 'optint'), ('coll', 'optint')]
+    # validators over an ignorable base as item hints: the item is still read once
+    out += [('list', 'ann2'), ('seq', 'ann2'), ('dict', 'str', 'ann2'), ('list', 'ann3'), ('tuplev', 'ann3'), ('iterable', 'ann2'), ('coll', 'ann2')]
     # a conforming container beside an offender
     out += [('tuplef', ('list', 'int'), 'str'), ('tuplef', 'str', ('list', 'int')), ('tuplef', ('dict', 'str', 'int'), 'str'),
             ('tuplef', ('seq', 'int'), ('list', 'str')), ('tuplef', ('list', ('list', 'int')), 'str'), ('tuplef', ('coll', 'int'), 'int', ('deque', 'str')),
@@ -208,6 +227,7 @@ ENTRIES = ('is_bearable', 'die_if_unbearable', 'decorated')
 
 
 def run_shape(idx):
+    LEAF.update(_leaf_validators())
     from beartype.door import is_bearable, die_if_unbearable
     from beartype.roar import BeartypeCallHintViolation
     sh = _STATE['shapes'][idx]
